@@ -21,10 +21,39 @@ import (
 	"verif/mc"
 )
 
-const (
-	repo  = "/repo"
-	verif = "/verif"
+const verif = "/verif"
+
+// repo is the tree the check is built from: always /repo for the registered commands. VERIF_REPO (development aid,
+// used by tools/seedmatrix.py to judge a changed copy of the library in a scratch worktree without touching /repo)
+// points the build at another tree through a generated -modfile; VERIF_OUT then receives evidence, replays and work files.
+var (
+	repo    = "/repo"
+	outDir  = verif
+	modfile = ""
 )
+
+func init() {
+	if v := os.Getenv("VERIF_REPO"); v != "" {
+		repo = v
+		if o := os.Getenv("VERIF_OUT"); o != "" {
+			outDir = o
+		} else {
+			fmt.Fprintln(os.Stderr, "vdriver: VERIF_REPO needs VERIF_OUT")
+			os.Exit(2)
+		}
+		os.MkdirAll(outDir, 0o755)
+		gm, err := os.ReadFile(filepath.Join(verif, "go.mod"))
+		if err != nil {
+			fmt.Fprintln(os.Stderr, "vdriver:", err)
+			os.Exit(2)
+		}
+		gm = bytes.Replace(gm, []byte("=> /repo"), []byte("=> "+repo), 1)
+		modfile = filepath.Join(outDir, "alt.mod")
+		os.WriteFile(modfile, gm, 0o644)
+		gs, _ := os.ReadFile(filepath.Join(verif, "go.sum"))
+		os.WriteFile(filepath.Join(outDir, "alt.sum"), gs, 0o644)
+	}
+}
 
 type run struct {
 	Name       string   // label (also VERIF_RUN)
@@ -192,6 +221,9 @@ func build(id string, r run, work string) (bin string, skipped []string) {
 		os.WriteFile(ovPath, js, 0o644)
 		tags := append([]string{"verif"}, r.Tags...)
 		args := []string{"build", "-tags", strings.Join(tags, ","), "-overlay", ovPath, "-o", bin}
+		if modfile != "" {
+			args = append(args, "-modfile", modfile)
+		}
 		if os.Getenv("VERIF_COVER") != "" { // development aid: statement coverage of the library by a check (GOCOVERDIR must be set)
 			args = append(args, "-cover", "-coverpkg=gitlab.com/yawning/secp256k1-voi/...")
 		}
@@ -275,7 +307,7 @@ func main() {
 	if _, err := os.Stat(filepath.Join(verif, "props", strings.ToLower(id))); err != nil {
 		fatal("no such property check: %s", id)
 	}
-	work := filepath.Join(verif, ".work", id+"-"+tier)
+	work := filepath.Join(outDir, ".work", id+"-"+tier)
 	os.RemoveAll(work)
 	if err := os.MkdirAll(work, 0o755); err != nil {
 		fatal("%v", err)
